@@ -119,7 +119,8 @@ def check(ctx, rep):
             seen.add(x)
             if x[0] == "phi":
                 work.extend(gse.phi_inputs.get((x[2], x[3]), {}).values())
-            elif x[0] == "after" and util.is_call(x[1]) and x[1][1].endswith("::index_mut"):
+            elif x[0] == "after" and util.is_call(x[1]) and (x[1][1].endswith("::index_mut") or x[1][1].endswith("DerefMut>::deref_mut") or x[1][1].endswith("<impl [T]>::iter_mut") or x[1][1].endswith("for &'a mut [T]>::into_iter") or x[1][1].endswith("::as_mut_slice")):
+                # writes through a `&mut [u8]` view of the Vec: elements change, the length cannot
                 work.append(x[3])
             elif x[0] == "upd":
                 work.append(x[1])
